@@ -12,6 +12,7 @@ from typing import (
     Union,
 )
 
+import numpy as np
 from numpy import logical_not, ndarray
 
 from mygrad._utils import WeakRefIterable
@@ -273,7 +274,11 @@ class UnView(Operation):
         # dℒ/d(base) = [0., 0., g2]
         # dℒ/d(view) = [g0, g1]
         if index == 0:  # compute dℒ/d(base)
-            grad = grad.copy(order="K")  # keep the layout: the view-fns must produce views
+            # copy into the memory layout of the base's data: the view-fns, which
+            # were recorded on that data, must produce views here as well
+            grad_copy = np.empty_like(placeholder_base.data, dtype=grad.dtype)
+            grad_copy[...] = grad
+            grad = grad_copy
             grad_view = grad
             for fn in self._view_fn_seq:
                 grad_view = fn(grad_view)
